@@ -47,6 +47,15 @@ def apply_op(lasio, sec, op, item_factory=None):
         key = list.__getitem__(sec, pos(op[1], n)).mnemonic
         sec[key] = mk(op[2])
         return "replace"
+    if kind == "setitem_pos":
+        # section[i] = item with an integer (Python or numpy) position: whatever lasio makes of it (it appends: no mnemonic matches an
+        # integer), the section must come out with distinct, resolvable names
+        if n == 0:
+            return "skip"
+        import numpy as np
+        i = pos(op[1], n)
+        sec[np.int64(i) if len(op[2]) % 2 else i] = mk(op[2])
+        return "append" if len(sec) > n else "replace"
     if kind == "attr_new":
         # section.NAME = item appends when NAME is not a key (only for names usable as attributes)
         name = op[1]
